@@ -11,7 +11,7 @@ Verdicts
 * `MONITOR no_hang/<op>`     — no answer within the harness time limit;
 * `MONITOR reject_noop/<what>` — a rejected request changed revision / roots / balance;
 * `MONITOR slices_in_bounds/<site>` — an accessor handed out bytes outside the program data;
-* `MISMATCH` — the model (with `Hostd.Mdm.deployed`) predicts another outcome class than observed.
+* `MISMATCH` — the model (with `Hostd.Mdm.deployed` plus the repairs named on the command line) predicts another outcome class than observed.
 -/
 namespace Hostd.Drive.Mdm
 open Hostd.Proto Hostd.Mdm
@@ -25,7 +25,6 @@ structure DState where
   modelPanics : Nat := 0
   modelFree : Nat := 0
 
-def fx : Fixes := deployed
 
 /-! ### parsing helpers -/
 
@@ -170,7 +169,7 @@ def v2Verdicts (op : String) (m : V2Out) (obs : List (String × String)) : List 
 
 /-! ### the step function -/
 
-def step (d : DState) (l : Line) : DState × List Verdict :=
+def step (fx : Fixes) (d : DState) (l : Line) : DState × List Verdict :=
   let res := (getStr l.obs "res").getD "?"
   let d := bump d res
   if res == "badcase" then (d, [.badline ((getStr l.obs "why").getD "badcase")]) else
